@@ -30,6 +30,7 @@ def shards(tier, seed):
         for path in MP.PATHS:
             out.append(("helper", fi, path))
     out += [("concurrent", mode, cut) for mode in ("tasks", "threads") for cut in range(4)]
+    out += [("after-bad-request", path) for path in MP.PATHS]
     return out
 
 
@@ -57,6 +58,44 @@ def run_shard(desc, tier):
         r.sample({"boundary": boundary, "parts": describe(parts), "body_len": len(body), "partitions_covered": f"2^{max(len(body) - 1, 0)} (+ empty chunks)"})
     elif desc[0] == "concurrent":
         concurrent(r, desc[1], desc[2])
+    elif desc[0] == "after-bad-request":
+        # what an earlier, broken request did to the process must not show in a later, well-formed one: first bodies whose
+        # names / field text / header lines are not valid in the announced charset, an unknown charset, a truncated body, a
+        # body over a limit - then well-formed forms with non-ASCII names, file names and text
+        path = desc[1]
+        fn = MP.PATHS[path]
+        bad = [
+            (b'--bd\r\nContent-Disposition: form-data; name="caf\xe9"\r\n\r\nv\xe9\r\n--bd--\r\n', b"bd", "utf-8"),
+            (b'--bd\r\nContent-Disposition: form-data; name="u"; filename="\xff.txt"\r\nX-\xe9: \xe9\r\n\r\ndata\r\n--bd--\r\n', b"bd", "utf-8"),
+            (b'--bd\r\nContent-Disposition: form-data; name="a"\r\n\r\nx\r\n--bd--\r\n', b"bd", "nonsense"),
+            (b'--bd\r\nContent-Disposition: form-data; name="a"\r\n\r\n\xe4\xb8', b"bd", "utf-8"),
+            (b'--bd\r\nno colon\r\n\r\nx\r\n--bd--\r\n', b"bd", "utf-8"),
+            (b'--bd\r\nContent-Disposition: form-data; name="g"\r\n\r\n\x81\x81\r\n--bd--\r\n', b"bd", "gbk"),
+        ]
+        good = [([MP.part("名前", None, "値é".encode()), MP.part("u", "ファイル.txt", "é".encode(), "text/plain")], b"bd", "utf-8"),
+                ([MP.part("é", None, "Zoë".encode("latin-1"))], b"bd", "latin-1"),
+                ([MP.part("g", "文.bin", b"\xff\x00"), MP.part("名", None, "中文".encode("gbk"))], b"bd", "gbk")]
+        for rounds in range(2):
+            for body, boundary, charset in bad:
+                try:
+                    fn([body[:7], body[7:]], boundary, charset)
+                except Exception:  # noqa - whatever the bad request gets is not judged here
+                    pass
+            for parts, boundary, charset in good:
+                body = MR.encode(parts, boundary, charset)
+                want = MR.expected_items(parts, charset)
+                for chunks in ([body], [body[:11], body[11:40], body[40:]]):
+                    r.count("evaluations")
+                    r.count("traces")
+                    r.count("distinct_nontrivial")
+                    try:
+                        got = fn(chunks, boundary, charset)
+                    except Exception as e:  # noqa
+                        got = ("raised", type(e).__name__, str(e)[:100])
+                    if got != want:
+                        r.violation(f"after-bad-request:{path}", {"mode": "after-bad-request", "path": path}, f"{path}: a well-formed {charset} form parsed after broken requests in the same process: got {got!r:.200} expected {want!r:.200}")
+        r.count("states", 1)
+        r.sample({"after-bad-request": path, "bad_bodies": len(bad), "good_forms": len(good)})
     else:
         _, fi, path = desc
         parts, boundary, charset, pre, epi = MP.corpus_helpers(tier)[fi]
@@ -123,6 +162,9 @@ def finish(merged, tier):
 
 
 def replay(w):
+    if w["mode"] == "after-bad-request":
+        rr = run_shard(("after-bad-request", w["path"]), "quick")
+        return bool(rr.viol), {"violations": sorted(rr.viol), "texts": [v[2][:300] for v in rr.viol.values()]}
     if w["mode"] == "concurrent":
         r = R()
         concurrent(r, w["how"], w["cut"])
